@@ -791,4 +791,101 @@ func runSiblingPrefix(c *Ctx) {
 		})
 	}
 	c.Check(okSplit, "prefix/first-segment", br.Pos(), "resolver keys on strings.SplitN(relPath, \"/\", 2)[0]", "resolver no longer keys on the first '/'-segment of the relative path")
+	// base names are taken from the absolute path everywhere: Base(".") is ".", Base("x/..") is "..", so a count over the raw
+	// argument disagrees with keys built from the absolute one
+	for _, f := range []*FuncInfo{sp, br} {
+		info := f.Info()
+		k := 0
+		ast.Inspect(f.Body, func(n ast.Node) bool {
+			call, ok := n.(*ast.CallExpr)
+			if !ok || !calleeIs(info, call, "path/filepath", "Base") || len(call.Args) != 1 {
+				return true
+			}
+			k++
+			abs := isAbsDerived(f, call.Args[0], 3)
+			c.Check(abs, fmt.Sprintf("prefix/base-of-abs/%s#%d", f.Name, k), call.Pos(), "the base name is taken from the absolute path",
+				f.Name+" takes filepath.Base of "+types.ExprString(call.Args[0])+", which is not the result of filepath.Abs: for arguments like `.`, `..` or `x/..` the base name differs from the one the other passes (and the other function) compute from the absolute path, so the collision count and the keys disagree - the manifest lists `1_proj/..` and the resolver finds nothing, the sender then reads a path relative to its working directory")
+			return true
+		})
+	}
+}
+
+// isAbsDerived: e is the result of filepath.Abs - a local all of whose definitions are Abs calls, an element of (or the range
+// value over) a slice to which only such values are appended.
+func isAbsDerived(f *FuncInfo, e ast.Expr, depth int) bool {
+	if depth == 0 {
+		return false
+	}
+	info := f.Info()
+	e = ast.Unparen(e)
+	if call, ok := e.(*ast.CallExpr); ok {
+		return calleeIs(info, call, "path/filepath", "Abs")
+	}
+	absSlice := func(o types.Object) bool {
+		if o == nil {
+			return false
+		}
+		if _, ok := o.Type().Underlying().(*types.Slice); !ok {
+			return false
+		}
+		n, okAll := 0, true
+		ast.Inspect(f.Root().Body, func(m ast.Node) bool {
+			as, ok := m.(*ast.AssignStmt)
+			if !ok || len(as.Lhs) != 1 || len(as.Rhs) != 1 || ObjOf(info, as.Lhs[0]) != o {
+				return true
+			}
+			call, ok := ast.Unparen(as.Rhs[0]).(*ast.CallExpr)
+			if !ok {
+				okAll = false
+				return true
+			}
+			id, ok := ast.Unparen(call.Fun).(*ast.Ident)
+			switch {
+			case ok && id.Name == "make":
+			case ok && id.Name == "append" && len(call.Args) >= 2 && ObjOf(info, call.Args[0]) == o:
+				for _, a := range call.Args[1:] {
+					n++
+					if !isAbsDerived(f, a, depth-1) {
+						okAll = false
+					}
+				}
+			default:
+				okAll = false
+			}
+			return true
+		})
+		return n > 0 && okAll
+	}
+	if ix, ok := e.(*ast.IndexExpr); ok {
+		return absSlice(ObjOf(info, ix.X))
+	}
+	o := ObjOf(info, e)
+	if o == nil {
+		return false
+	}
+	// range value over an abs slice
+	isRange := false
+	ast.Inspect(f.Root().Body, func(m ast.Node) bool {
+		if rs, ok := m.(*ast.RangeStmt); ok && rs.Value != nil && ObjOf(info, rs.Value) == o && absSlice(ObjOf(info, rs.X)) {
+			isRange = true
+		}
+		return true
+	})
+	if isRange {
+		return true
+	}
+	own := owningFunc(f, o)
+	if own == nil {
+		return false
+	}
+	defs := allDefs(own, o)
+	if len(defs) == 0 {
+		return false
+	}
+	for _, d := range defs {
+		if !isAbsDerived(own, d, depth-1) {
+			return false
+		}
+	}
+	return true
 }
